@@ -508,6 +508,56 @@ Section B64.
     apply digits_of_some in D. destruct D as [Dl Dm]. rewrite tbl_len in Dl.
     rewrite enc_bits_digits, enc_dec_digits by (try lia; assumption). exact Dm.
   Qed.
+
+  (* ... and for the padded form (the form of key strings) *)
+  Definition b64pad_canonical (s : bstr) : Prop :=
+    strip_nl s = s /\
+    match digits_of tbl (strip1 (strip1 s)) with Some ds => canonical_digits 6 ds | None => False end.
+
+  Lemma strip1_cases l : (strip1 l = l /\ last l 0 <> 61) \/ (exists l', l = l' ++ [61] /\ strip1 l = l').
+  Proof.
+    unfold strip1. destruct (last l 0 =? 61) eqn:E.
+    - right. apply N.eqb_eq in E. destruct l as [|x l]; [cbn in E; lia|].
+      destruct (@exists_last _ (x :: l) ltac:(discriminate)) as [l' [a Ea]]. rewrite Ea in *.
+      rewrite last_last in E. subst a. exists l'. split; [reflexivity | apply removelast_app_one].
+    - left. split; [reflexivity | lia].
+  Qed.
+
+  Lemma padn_of_len n j : (j <= 2)%nat -> Nat.modulo (n + j) 4 = 0%nat -> Nat.modulo n 4 <> 1%nat -> padn n = j.
+  Proof.
+    intros Hj M N1. unfold padn.
+    pose proof (Nat.div_mod n 4 ltac:(lia)) as D1. pose proof (Nat.mod_upper_bound n 4 ltac:(lia)) as U1.
+    pose proof (Nat.div_mod (n + j) 4 ltac:(lia)) as D2. rewrite M in D2.
+    set (q := Nat.div n 4) in *. set (r := Nat.modulo n 4) in *. set (q' := Nat.div (n + j) 4) in *.
+    destruct r as [|[|[|[|r]]]]; try lia; destruct j as [|[|[|j]]]; try lia; reflexivity.
+  Qed.
+
+  Theorem b64pad_dec_enc s b : b64pad_canonical s -> b64pad_dec tbl s = Some b -> b64pad_with tbl b = s.
+  Proof.
+    intros [NL C] H. unfold b64pad_dec in H. rewrite NL in H.
+    destruct (Nat.modulo (length s) 4 =? 0)%nat eqn:M; [|discriminate]. apply Nat.eqb_eq in M.
+    unfold b64_body in H. set (body := strip1 (strip1 s)) in *.
+    destruct (digits_of tbl body) as [ds|] eqn:D; [|discriminate]. inversion H; subst b. clear H.
+    pose proof (digits_of_length _ _ _ D) as DL.
+    apply digits_of_some in D. destruct D as [Dl Dm]. rewrite tbl_len in Dl.
+    assert (E : enc_bits 6 tbl (dec_digits 6 ds) = body).
+    { rewrite enc_bits_digits, enc_dec_digits by (try lia; assumption). exact Dm. }
+    unfold b64pad_with. rewrite E.
+    (* the digits are as many as an encoding has: never 1 mod 4 *)
+    assert (K1 : Nat.modulo (length body) 4 <> 1%nat).
+    { rewrite <- E. apply enc_len_mod. }
+    destruct (strip1_cases s) as [[S1 L1]|[l1 [E1 S1]]].
+    - assert (B : body = s) by (unfold body; rewrite S1; exact S1).
+      rewrite B in *. rewrite (padn_of_len (length s) 0); [apply app_nil_r | lia | rewrite Nat.add_0_r; exact M | exact K1].
+    - destruct (strip1_cases l1) as [[S2 L2]|[l2 [E2 S2]]].
+      + assert (B : body = l1) by (unfold body; rewrite S1; exact S2).
+        rewrite B in *. rewrite (padn_of_len (length l1) 1); [symmetry; exact E1 | lia | | exact K1].
+        rewrite E1, app_length in M. exact M.
+      + assert (B : body = l2) by (unfold body; rewrite S1; exact S2).
+        rewrite B in *. rewrite (padn_of_len (length l2) 2); [| lia | | exact K1].
+        * rewrite E1, E2, <- app_assoc. reflexivity.
+        * rewrite E1, E2, !app_length in M. cbn [length] in M. rewrite <- Nat.add_assoc in M. exact M.
+  Qed.
 End B64.
 
 Lemma tbl_b64std_ok : tbl_ok tbl_b64std = true. Proof. reflexivity. Qed.
@@ -618,6 +668,23 @@ Definition mb_modelled (s : bstr) : bool :=
 
 (* multibase.Encode(Base64pad, b): what signer.Format prints *)
 Definition mb64enc (b : bstr) : bstr := 77 :: b64pad b.
+
+(* a canonical key string (no line break, dropped bits zero) decodes only to the bytes
+   whose Format it is *)
+Theorem mb64_dec_enc s b : b64pad_canonical tbl_b64std s -> mb_decode (77 :: s) = Some b -> mb64enc b = 77 :: s.
+Proof.
+  intros C H. unfold mb_decode in H. cbn [N.eqb Pos.eqb orb] in H. unfold mb64enc, b64pad. f_equal.
+  apply (b64pad_dec_enc tbl_b64std tbl_b64std_ok); assumption.
+Qed.
+
+Example b64pad_canonical_ex :
+  b64pad_canonical tbl_b64std (bs "Zm9vIQ==") /\ mb_decode (bs "MZm9vIQ==") = Some (bs "foo!") /\
+  ~ b64pad_canonical tbl_b64std (bs "Zm9vIR==") /\ mb_decode (bs "MZm9vIR==") = Some (bs "foo!").
+Proof.
+  split; [split; [reflexivity | vm_compute; split; reflexivity]|].
+  split; [vm_compute; reflexivity|]. split; [|vm_compute; reflexivity].
+  intros [_ C]. vm_compute in C. destruct C as [_ C]. discriminate.
+Qed.
 
 Theorem mb_roundtrip b : bytes_lt b -> mb_decode (mb64enc b) = Some b.
 Proof. intros H. unfold mb_decode, mb64enc. cbn [N.eqb Pos.eqb orb]. apply b64pad_roundtrip; [reflexivity | exact H]. Qed.
